@@ -30,6 +30,11 @@ var c12constructs = []c12construct{
 	{"guarded raise", `{|c| raise ValueErr.new("guard") if c; x}(v)`, func(t bool) (string, string) { return "", pickS(t, "!ValueErr: guard", "x") }},
 	{"guarded yield", `<{|c| yield w if c}>.new(v).next`, func(t bool) (string, string) { return "", pickS(t, "w", "!StopIterErr") }},
 	{"guarded defer", `{|c| defer "D".p if c; "B".p; x}(v)`, func(t bool) (string, string) { return pickS(t, "B\nD\n", "B\n"), "x" }},
+	{"guarded return operand only if true", `{|c| return mark(w) if c; x}(v)`, func(t bool) (string, string) { return pickS(t, "M\n", ""), pickS(t, "w", "x") }},
+	{"guarded raise operand only if true", `{|c| raise {|| "M".p; ValueErr.new("guard2")}() if c; x}(v)`, func(t bool) (string, string) { return pickS(t, "M\n", ""), pickS(t, "!ValueErr: guard2", "x") }},
+	{"guarded yield operand only if true", `<{|c| yield mark(w) if c}>.new(v).try.next.val`, func(t bool) (string, string) { return pickS(t, "M\n", ""), pickS(t, "w", "=nil") }},
+	{"guarded defer operand only if true", `{|c| defer mark(w) if c; "B".p; x}(v)`, func(t bool) (string, string) { return pickS(t, "B\nM\n", "B\n"), "x" }},
+	{"if-else operands only in the taken branch", `(mark(w) if v else mark(x))`, func(t bool) (string, string) { return "M\n", pickS(t, "w", "x") }},
 	{"not", `!v`, func(t bool) (string, string) { return "", pickS(t, "=false", "=true") }},
 	{"not not", `!!v`, func(t bool) (string, string) { return "", pickS(t, "=true", "=false") }},
 	{"and", `v && mark(w)`, func(t bool) (string, string) { return pickS(t, "M\n", ""), pickS(t, "w", "v") }},
